@@ -182,7 +182,11 @@ func (r *recorder) writeFail(js []byte, f *Failure) {
 	}
 	rf := ReplayFile{Property: r.st.Property, Check: r.st.Check, Key: f.Key, Msg: f.Msg, Seed: os.Getenv("VERIF_SEED"), Case: js}
 	b, _ := json.MarshalIndent(rf, "", " ")
-	os.WriteFile(filepath.Join(r.outDir, r.base+".fail.json"), b, 0o644)
+	// atomically: the process may be killed (race detector, watchdog) at any moment
+	p := filepath.Join(r.outDir, r.base+".fail.json")
+	if os.WriteFile(p+".tmp", b, 0o644) == nil {
+		os.Rename(p+".tmp", p)
+	}
 }
 
 func (r *recorder) flush(failed bool, failKey string) {
